@@ -12,19 +12,6 @@ Inductive sched : list action -> list action -> Prop :=
 | sched_int a l pend : internal a = true -> sched l pend -> sched (a :: l) pend
 | sched_ext a l pend rest : In (a, rest) (picks pend) -> sched l rest -> sched (a :: l) pend.
 
-Definition expand (f : nat) (s : state) (pend : list action) : list state :=
-  flat_map (fun s' => explore f s' pend) (enabled_internal s) ++
-  flat_map (fun '(a, rest) => match step s a with Some s' => explore f s' rest | None => [] end)
-           (picks pend).
-
-Lemma explore_unfold f s pend :
-  explore (S f) s pend =
-  match enabled_internal s, pend with
-  | [], [] => [s]
-  | _, _ => expand f s pend
-  end.
-Proof. cbn [explore]. unfold expand. destruct (enabled_internal s), pend; reflexivity. Qed.
-
 Lemma picks_length {A} (l : list A) x r : In (x, r) (picks l) -> length l = S (length r).
 Proof.
   revert x r; induction l as [|y l IH]; cbn; intros x r Hin; [contradiction|].
@@ -34,46 +21,173 @@ Proof.
     cbn. f_equal. eapply IH; eauto.
 Qed.
 
-Theorem explore_sound fuel : forall s pend s',
+(** ** equality tests used for merging are sound *)
+Lemma list_eqb_eq {A} (eqb : A -> A -> bool) :
+  (forall a b, eqb a b = true -> a = b) -> forall l r, list_eqb eqb l r = true -> l = r.
+Proof.
+  intros He. induction l as [|x l IH]; destruct r as [|y r]; cbn; intros H; try discriminate; auto.
+  apply andb_prop in H. destruct H as [H1 H2]. f_equal; auto.
+Qed.
+
+Lemma addr_eqb_true a b : addr_eqb a b = true -> a = b.
+Proof. intros H. destruct (addr_eqb_spec a b); auto; discriminate. Qed.
+
+Lemma pc_eqb_eq p q : pc_eqb p q = true -> p = q.
+Proof.
+  destruct p, q; cbn; intros H; try discriminate; auto;
+    repeat match goal with
+           | H : (_ && _)%bool = true |- _ => apply andb_prop in H; destruct H
+           | H : (_ =? _)%N = true |- _ => apply N.eqb_eq in H; subst
+           | H : addr_eqb _ _ = true |- _ => apply addr_eqb_true in H; subst
+           | H : Nat.eqb _ _ = true |- _ => apply Nat.eqb_eq in H; subst
+           end; auto.
+Qed.
+
+Lemma thread_eqb_eq a b : thread_eqb a b = true -> a = b.
+Proof.
+  destruct a as [p1 d1 b1 r1], b as [p2 d2 b2 r2]; unfold thread_eqb; cbn. intros H.
+  apply andb_prop in H. destruct H as [H Hr].
+  apply andb_prop in H. destruct H as [H Hb].
+  apply andb_prop in H. destruct H as [Hp Hd].
+  apply pc_eqb_eq in Hp. apply Bool.eqb_prop in Hd. apply Bool.eqb_prop in Hb.
+  assert (r1 = r2) by (destruct r1, r2; cbn in Hr; try discriminate; auto).
+  subst. reflexivity.
+Qed.
+
+Lemma state_eqb_eq a b : state_eqb a b = true -> a = b.
+Proof.
+  destruct a as [t1 b1 h1], b as [t2 b2 h2]; unfold state_eqb; cbn. intros H.
+  apply andb_prop in H. destruct H as [H Hh].
+  apply andb_prop in H. destruct H as [Ht Hb].
+  apply (list_eqb_eq _ thread_eqb_eq) in Ht.
+  apply list_eqb_eq in Hb.
+  2:{ intros [i x] [j y]; cbn. intros E. apply andb_prop in E. destruct E as [E1 E2].
+      apply N.eqb_eq in E1. apply addr_eqb_true in E2. subst; auto. }
+  apply list_eqb_eq in Hh.
+  2:{ intros [x [n1 k1]] [y [n2 k2]]; cbn. intros E. apply andb_prop in E. destruct E as [E E3].
+      apply andb_prop in E. destruct E as [E1 E2].
+      apply addr_eqb_true in E1. apply Z.eqb_eq in E2. apply Z.eqb_eq in E3. subst; auto. }
+  subst. reflexivity.
+Qed.
+
+Lemma action_eqb_eq a b : action_eqb a b = true -> a = b.
+Proof.
+  destruct a, b; cbn; intros H; try discriminate;
+    repeat match goal with
+           | H : (_ && _)%bool = true |- _ => apply andb_prop in H; destruct H
+           | H : (_ =? _)%N = true |- _ => apply N.eqb_eq in H; subst
+           | H : Nat.eqb _ _ = true |- _ => apply Nat.eqb_eq in H; subst
+           | H : Bool.eqb _ _ = true |- _ => apply Bool.eqb_prop in H; subst
+           end; auto.
+Qed.
+
+Lemma node_eqb_eq a b : node_eqb a b = true -> a = b.
+Proof.
+  destruct a as [s1 p1], b as [s2 p2]; unfold node_eqb; cbn. intros H.
+  apply andb_prop in H. destruct H as [H1 H2].
+  apply state_eqb_eq in H1. apply (list_eqb_eq _ action_eqb_eq) in H2. subst; auto.
+Qed.
+
+Lemma dedup_in l x : In x (dedup l) <-> In x l.
+Proof.
+  induction l as [|y l IH]; cbn; [tauto|].
+  destruct (existsb (state_eqb y) l) eqn:E.
+  - rewrite IH. split; auto. intros [<-|H]; auto.
+    apply existsb_exists in E. destruct E as (z & Hz & Ez). apply state_eqb_eq in Ez. subst. auto.
+  - cbn. rewrite IH. tauto.
+Qed.
+
+Lemma dedupn_in l x : In x (dedupn l) <-> In x l.
+Proof.
+  induction l as [|y l IH]; cbn; [tauto|].
+  destruct (existsb (node_eqb y) l) eqn:E.
+  - rewrite IH. split; auto. intros [<-|H]; auto.
+    apply existsb_exists in E. destruct E as (z & Hz & Ez). apply node_eqb_eq in Ez. subst. auto.
+  - cbn. rewrite IH. tauto.
+Qed.
+
+(** ** the breadth-first exploration *)
+Definition reaches (nd : node) (l : list action) (s' : state) : Prop :=
+  sched l (snd nd) /\ run (fst nd) l = Some s' /\ quiescent s' = true.
+
+Lemma bfs_unfold f front :
+  bfs (S f) front =
+  match front with
+  | [] => []
+  | _ => map fst (filter terminal front) ++ bfs f (dedupn (flat_map expand_node front))
+  end.
+Proof. reflexivity. Qed.
+
+Lemma expand_node_inv nd nd1 :
+  In nd1 (expand_node nd) ->
+  exists a, step (fst nd) a = Some (fst nd1) /\
+            ((internal a = true /\ snd nd1 = snd nd) \/ In (a, snd nd1) (picks (snd nd))).
+Proof.
+  destruct nd as [s pend], nd1 as [s1 p1]. unfold expand_node. intros Hin.
+  apply in_app_or in Hin. destruct Hin as [Hin|Hin].
+  - apply in_map_iff in Hin. destruct Hin as (x & E & Hin). inversion E; subst.
+    apply enabled_internal_inv in Hin. destruct Hin as (a & Hi & Hs). exists a. cbn. auto.
+  - apply in_flat_map in Hin. destruct Hin as ([a rest] & Hp & Hin).
+    destruct (step s a) as [s2|] eqn:Hs; [|contradiction]. destruct Hin as [E|[]].
+    inversion E; subst. exists a. cbn. auto.
+Qed.
+
+Theorem bfs_sound fuel : forall front s',
+  In s' (bfs fuel front) -> exists nd l, In nd front /\ reaches nd l s'.
+Proof.
+  induction fuel as [|f IH]; intros front s' Hin; [contradiction|].
+  rewrite bfs_unfold in Hin. destruct front as [|n0 fr] eqn:Ef; [contradiction|]. rewrite <- Ef in *.
+  apply in_app_or in Hin. destruct Hin as [Hin|Hin].
+  - apply in_map_iff in Hin. destruct Hin as (nd & E & Hin). apply filter_In in Hin.
+    destruct Hin as [Hin Ht]. subst s'. exists nd, []. split; auto.
+    unfold terminal in Ht. unfold reaches, quiescent.
+    destruct (enabled_internal (fst nd)); [|discriminate]. destruct (snd nd); [|discriminate].
+    repeat split; constructor.
+  - destruct (IH _ _ Hin) as (nd1 & l & Hin1 & Hsch & Hrun & Hq).
+    rewrite dedupn_in in Hin1. apply in_flat_map in Hin1. destruct Hin1 as (nd & Hnd & Hexp).
+    destruct (expand_node_inv _ _ Hexp) as (a & Hs & Hcase).
+    exists nd, (a :: l). split; auto. unfold reaches. split; [|split; auto].
+    + destruct Hcase as [[Hi E]|Hp]; [rewrite <- E; constructor; auto|eapply sched_ext; eauto].
+    + cbn. rewrite Hs. auto.
+Qed.
+
+Theorem bfs_complete l : forall fuel front nd s',
+  In nd front -> reaches nd l s' -> (length l < fuel)%nat -> In s' (bfs fuel front).
+Proof.
+  induction l as [|a l IH]; intros fuel front nd s' Hin (Hsch & Hrun & Hq) Hlen;
+    (destruct fuel as [|f]; [cbn in Hlen; lia|]); rewrite bfs_unfold;
+    (destruct front as [|n0 fr] eqn:Ef; [contradiction|]); rewrite <- Ef in *; apply in_or_app.
+  - left. inversion Hsch as [E1 E2| |]; subst. cbn in Hrun. inversion Hrun; subst.
+    apply in_map_iff. exists nd. split; auto. apply filter_In. split; auto.
+    unfold terminal. rewrite <- E2. unfold quiescent in Hq.
+    destruct (enabled_internal (fst nd)); [auto|discriminate].
+  - right. cbn in Hrun. destruct (step (fst nd) a) as [s1|] eqn:Hs; try discriminate.
+    destruct nd as [s pend]. cbn [fst snd] in *.
+    inversion Hsch as [|a' l' p' Hi Hsch'|a' l' p' rest Hp Hsch']; subst.
+    + apply (IH f _ (s1, pend)); [|repeat split; auto|cbn in Hlen; lia].
+      rewrite dedupn_in. apply in_flat_map. exists (s, pend). split; auto.
+      unfold expand_node. apply in_or_app. left. apply in_map_iff. exists s1. split; auto.
+      eapply enabled_internal_in; eauto.
+    + apply (IH f _ (s1, rest)); [|repeat split; auto|cbn in Hlen; lia].
+      rewrite dedupn_in. apply in_flat_map. exists (s, pend). split; auto.
+      unfold expand_node. apply in_or_app. right. apply in_flat_map. exists (a, rest). split; auto.
+      rewrite Hs. left; auto.
+Qed.
+
+Theorem explore_sound fuel s pend s' :
   In s' (explore fuel s pend) ->
   exists l, sched l pend /\ run s l = Some s' /\ quiescent s' = true.
 Proof.
-  induction fuel as [|f IH]; intros s pend s' Hin; [contradiction|].
-  rewrite explore_unfold in Hin.
-  assert (Hexp : In s' (expand f s pend) -> exists l, sched l pend /\ run s l = Some s' /\ quiescent s' = true).
-  { clear Hin. unfold expand. intros Hin. apply in_app_or in Hin. destruct Hin as [Hin|Hin].
-    - apply in_flat_map in Hin. destruct Hin as (s1 & H1 & Hin).
-      apply enabled_internal_inv in H1. destruct H1 as (a & Hi & Hs).
-      destruct (IH _ _ _ Hin) as (l & Hl & Hrun & Hq).
-      exists (a :: l). split; [constructor; auto|]. split; auto. cbn. rewrite Hs. auto.
-    - apply in_flat_map in Hin. destruct Hin as ([a rest] & Hp & Hin).
-      destruct (step s a) as [s1|] eqn:Hs; [|contradiction].
-      destruct (IH _ _ _ Hin) as (l & Hl & Hrun & Hq).
-      exists (a :: l). split; [eapply sched_ext; eauto|]. split; auto. cbn. rewrite Hs. auto. }
-  destruct (enabled_internal s) eqn:E; destruct pend eqn:P; auto.
-  destruct Hin as [<-|[]]. exists []. split; [constructor|]. split; auto.
-  unfold quiescent. rewrite E. auto.
+  unfold explore. intros Hin. destruct (bfs_sound _ _ _ Hin) as (nd & l & [<-|[]] & Hr).
+  exists l. exact Hr.
 Qed.
 
-Theorem explore_complete l : forall fuel s pend s',
+Theorem explore_complete l fuel s pend s' :
   sched l pend -> run s l = Some s' -> quiescent s' = true ->
   (length l < fuel)%nat -> In s' (explore fuel s pend).
 Proof.
-  induction l as [|a l IH]; intros fuel s pend s' Hsch Hrun Hq Hlen;
-    (destruct fuel as [|f]; [cbn in Hlen; lia|]); rewrite explore_unfold.
-  - inversion Hsch; subst. cbn in Hrun. inversion Hrun; subst.
-    unfold quiescent in Hq. destruct (enabled_internal s'); [left; auto|discriminate].
-  - cbn in Hrun. destruct (step s a) as [s1|] eqn:Hs; try discriminate.
-    assert (Hexp : In s' (expand f s pend)).
-    { unfold expand. apply in_or_app. inversion Hsch; subst.
-      - left. apply in_flat_map. exists s1. split; [eapply enabled_internal_in; eauto|].
-        apply IH; auto. cbn in Hlen. lia.
-      - right. apply in_flat_map. exists (a, rest). split; auto. rewrite Hs.
-        apply IH; auto. cbn in Hlen. lia. }
-    inversion Hsch; subst.
-    + pose proof (enabled_internal_in _ _ _ H1 Hs) as Hin.
-      destruct (enabled_internal s); [contradiction|]. destruct pend; auto.
-    + destruct pend; [contradiction|]. destruct (enabled_internal s); auto.
+  intros Hsch Hrun Hq Hlen. unfold explore.
+  apply (bfs_complete l fuel _ (s, pend)); [left; auto|repeat split; auto|auto].
 Qed.
 
 (* the fuel of the checker is enough *)
@@ -103,59 +217,6 @@ Theorem explore_complete_fuel s acts l s' :
 Proof.
   intros Hsch Hrun Hq. eapply explore_complete; eauto.
   pose proof (sched_length _ _ _ _ Hsch Hrun). pose proof (measure_le s). unfold fuel_for. lia.
-Qed.
-
-(** * The candidate set: dedup only removes equal states *)
-Lemma list_eqb_eq {A} (eqb : A -> A -> bool) :
-  (forall a b, eqb a b = true -> a = b) -> forall l r, list_eqb eqb l r = true -> l = r.
-Proof.
-  intros He. induction l as [|x l IH]; destruct r as [|y r]; cbn; intros H; try discriminate; auto.
-  apply andb_prop in H. destruct H as [H1 H2]. f_equal; auto.
-Qed.
-
-Lemma pc_eqb_eq p q : pc_eqb p q = true -> p = q.
-Proof.
-  destruct p, q; cbn; intros H; try discriminate; auto;
-    repeat match goal with
-           | H : (_ && _)%bool = true |- _ => apply andb_prop in H; destruct H
-           | H : (_ =? _)%N = true |- _ => apply N.eqb_eq in H; subst
-           | H : Nat.eqb _ _ = true |- _ => apply Nat.eqb_eq in H; subst
-           end; auto.
-Qed.
-
-Lemma thread_eqb_eq a b : thread_eqb a b = true -> a = b.
-Proof.
-  destruct a as [p1 d1 b1 r1], b as [p2 d2 b2 r2]; unfold thread_eqb; cbn. intros H.
-  apply andb_prop in H. destruct H as [H Hr].
-  apply andb_prop in H. destruct H as [H Hb].
-  apply andb_prop in H. destruct H as [Hp Hd].
-  apply pc_eqb_eq in Hp. apply Bool.eqb_prop in Hd. apply Bool.eqb_prop in Hb.
-  assert (r1 = r2) by (destruct r1, r2; cbn in Hr; try discriminate; auto).
-  subst. reflexivity.
-Qed.
-
-Lemma state_eqb_eq a b : state_eqb a b = true -> a = b.
-Proof.
-  destruct a as [t1 b1 h1], b as [t2 b2 h2]; unfold state_eqb; cbn. intros H.
-  apply andb_prop in H. destruct H as [H Hh].
-  apply andb_prop in H. destruct H as [Ht Hb].
-  apply (list_eqb_eq _ thread_eqb_eq) in Ht.
-  apply list_eqb_eq in Hb.
-  2:{ intros [i x] [j y]; cbn. intros E. apply andb_prop in E. destruct E as [E1 E2].
-      apply N.eqb_eq in E1. apply Nat.eqb_eq in E2. subst; auto. }
-  apply list_eqb_eq in Hh.
-  2:{ intros [n1 k1] [n2 k2]; cbn. intros E. apply andb_prop in E. destruct E as [E1 E2].
-      apply Z.eqb_eq in E1. apply Z.eqb_eq in E2. subst; auto. }
-  subst. reflexivity.
-Qed.
-
-Lemma dedup_in l x : In x (dedup l) <-> In x l.
-Proof.
-  induction l as [|y l IH]; cbn; [tauto|].
-  destruct (existsb (state_eqb y) l) eqn:E.
-  - rewrite IH. split; auto. intros [<-|H]; auto.
-    apply existsb_exists in E. destruct E as (z & Hz & Ez). apply state_eqb_eq in Ez. subst. auto.
-  - cbn. rewrite IH. tauto.
 Qed.
 
 (* what the checker accepts as the next observation is exactly what the model can show after
